@@ -332,7 +332,17 @@ pub fn rule(p: Prof, r: RuleFn, s: &str) -> Out {
 
 /// the same rule, handed an owned `String` (exercises the `Cow::Owned` paths)
 pub fn rule_owned(p: Prof, r: RuleFn, s: &str) -> Out {
-    let o = s.to_string();
+    rule_owned_cap(p, r, s, 0)
+}
+
+/// the same content in a String with spare capacity (in-place paths may look at capacity())
+pub fn rule_owned_roomy(p: Prof, r: RuleFn, s: &str) -> Out {
+    rule_owned_cap(p, r, s, 64)
+}
+
+fn rule_owned_cap(p: Prof, r: RuleFn, s: &str, spare: usize) -> Out {
+    let mut o = String::with_capacity(s.len() + spare);
+    o.push_str(s);
     with_profile!(
         p,
         x,
